@@ -125,7 +125,8 @@ def compare_step(w, rec, out, val, before):
             fails.append(("out", "step outcome %s (%r), spec %s" % (out, val, exp_out), ""))
     # ---- a decision of an insolvent account executes nothing
     n_entries = len(tr)
-    if rec["stamp"] == -1 and exp_out in ("ok", "broke"):
+    # (a rebalance that starts solvent and is made insolvent by its own trading costs has traded: rec["traded"])
+    if rec["stamp"] == -1 and not rec.get("traded") and exp_out in ("ok", "broke"):
         if n_entries != before["entries"] or w.pos() != before["pos"]:
             fails.append(("broke_traded", "an account with NLV <= 0 traded: positions %s -> %s, track record %d -> %d entries" % (
                 before["pos"], w.pos(), before["entries"], n_entries), ""))
@@ -293,6 +294,9 @@ def run_case(model, cfg, hist, reward_kind, owned=None):
             if nl is not None and nl == 0 and rec["out"] != "ended" and not float_exact(hist[: i + 1]):
                 # NLV lands exactly on zero after non-dyadic arithmetic: floating point may fall on either
                 # side of the boundary, both classes are acceptable and nothing further is compared
+                break
+            if rec.get("edge"):
+                # an imbalance weight exactly equal to the threshold: binary floating point may decide either way
                 break
             a = w.action(rec["target"])
             try:
